@@ -5,6 +5,10 @@
  *   dr <k> new <block_size> <frag_meta_start> <frag_loc> <frag_count> <bytes_used> <entries>   -> st=<load status>
  *   dr <k> read <filesz> <blkstart> <fragidx> <fragoff> <w1,w2,..|-> <offset> <size>          -> <hist> || <fresh>
  *        answer = ret=<n> data=<hex>   |  ret=<negative status>
+ *   dr <k> block <inode> <index> | frag <inode> | cat <inode> <chunk>                          -> <hist> || <fresh>
+ *        answer = st=<negative status> | st=0 data=<hex>  (cat: whole file through a new stream, data so far also on error)
+ *   dr <k> reload <frag_meta_start> <frag_loc> <frag_count> <bytes_used>                        -> st=<load status>
+ *   st <j> open <k> <inode> -> ok | st <j> get -> eof | st=<status> | data=<hex> | st <j> adv <n> -> ok
  */
 #include "config.h"
 #include "sqfs/predef.h"
@@ -81,6 +85,101 @@ static void do_read(sqfs_data_reader_t *d, const sqfs_inode_generic_t *ino, sqfs
 	free(buf);
 }
 
+static void set_super(sqfs_super_t *s, sqfs_u64 bs, sqfs_u64 ms, sqfs_u64 loc, sqfs_u64 cnt, sqfs_u64 used)
+{
+	memset(s, 0, sizeof(*s));
+	s->block_size = (sqfs_u32)bs;
+	s->bytes_used = used;
+	s->fragment_entry_count = (sqfs_u32)cnt;
+	s->fragment_table_start = cnt ? loc : 0xFFFFFFFFFFFFFFFFULL;
+	s->directory_table_start = ms;
+	s->id_table_start = used;
+	s->export_table_start = 0xFFFFFFFFFFFFFFFFULL;
+	s->xattr_id_table_start = 0xFFFFFFFFFFFFFFFFULL;
+	if (!cnt) s->flags |= SQFS_FLAG_NO_FRAGMENTS;
+}
+
+static void show_data(int st, const sqfs_u8 *p, size_t n)
+{
+	if (st) { printf("st=%d", st); return; }
+	printf("st=0 data="); hex_print(stdout, p, n);
+}
+
+static void do_block(sqfs_data_reader_t *d, const sqfs_inode_generic_t *ino, sqfs_u64 idx)
+{
+	sqfs_u8 *out = NULL; size_t sz = 0;
+	int st = sqfs_data_reader_get_block(d, ino, (size_t)idx, &sz, &out);
+	show_data(st, out, sz);
+	free(out);
+}
+
+static void do_frag(sqfs_data_reader_t *d, const sqfs_inode_generic_t *ino)
+{
+	sqfs_u8 *out = NULL; size_t sz = 0;
+	int st = sqfs_data_reader_get_fragment(d, ino, &sz, &out);
+	show_data(st, out, sz);
+	free(out);
+}
+
+static void do_cat(sqfs_data_reader_t *d, const sqfs_inode_generic_t *ino, sqfs_u64 chunk)
+{
+	sqfs_istream_t *in = NULL;
+	unsigned char *acc = malloc(1); size_t len = 0;
+	int st = sqfs_data_reader_create_stream(d, ino, "f", &in);
+	if (!acc) abort();
+	while (st == 0) {
+		const sqfs_u8 *p = NULL; size_t sz = 0, n;
+		int ret = in->get_buffered_data(in, &p, &sz, 4096);
+		if (ret > 0) break;
+		if (ret < 0) { st = ret; break; }
+		n = (chunk == 0 || chunk > sz) ? sz : (size_t)chunk;
+		acc = realloc(acc, len + n + 1);
+		if (!acc) abort();
+		memcpy(acc + len, p, n); len += n;
+		in->advance_buffer(in, n);
+		if (len > (64u << 20)) { st = -999; break; }
+	}
+	if (in) sqfs_drop(in);
+	printf("st=%d data=", st); hex_print(stdout, acc, len);
+	free(acc);
+}
+
+#define NST 16
+static sqfs_istream_t *g_st[NST];
+
+void op_stream(char **w, int nw)
+{
+	sqfs_u64 j, k;
+	if (nw < 3 || pu64(w[1], &j) || j >= NST) { puts("bad-op"); return; }
+	if (strcmp(w[2], "open") == 0 && nw == 9) {
+		sqfs_inode_generic_t *ino;
+		int st;
+		if (pu64(w[3], &k) || k >= NDR || !g_dr[k]) { puts("bad-op"); return; }
+		ino = mk_inode(w + 4);
+		if (!ino) { puts("bad-op"); return; }
+		if (g_st[j]) g_st[j] = sqfs_drop(g_st[j]);
+		st = sqfs_data_reader_create_stream(g_dr[k], ino, "f", &g_st[j]);
+		free(ino);
+		if (st) printf("st=%d\n", st); else puts("ok");
+		return;
+	}
+	if (!g_st[j]) { puts("bad-op"); return; }
+	if (strcmp(w[2], "get") == 0 && nw == 3) {
+		const sqfs_u8 *p = NULL; size_t sz = 0;
+		int ret = g_st[j]->get_buffered_data(g_st[j], &p, &sz, 4096);
+		if (ret > 0) puts("eof");
+		else if (ret < 0) printf("st=%d\n", ret);
+		else { printf("data="); hex_print(stdout, p, sz); putchar('\n'); }
+		return;
+	}
+	if (strcmp(w[2], "adv") == 0 && nw == 4 && !pu64(w[3], &k)) {
+		g_st[j]->advance_buffer(g_st[j], (size_t)k);
+		puts("ok");
+		return;
+	}
+	puts("bad-op");
+}
+
 void op_data(char **w, int nw)
 {
 	sqfs_u64 k;
@@ -90,22 +189,35 @@ void op_data(char **w, int nw)
 		int st;
 		if (pu64(w[3], &bs) || pu64(w[4], &ms) || pu64(w[5], &loc) || pu64(w[6], &cnt) || pu64(w[7], &used)) { puts("bad-op"); return; }
 		if (g_dr[k]) sqfs_drop(g_dr[k]);
-		memset(&g_dr_super[k], 0, sizeof(g_dr_super[k]));
 		g_dr_bs[k] = (sqfs_u32)bs;
-		g_dr_super[k].block_size = (sqfs_u32)bs;
-		g_dr_super[k].bytes_used = used;
-		g_dr_super[k].fragment_entry_count = (sqfs_u32)cnt;
-		g_dr_super[k].fragment_table_start = cnt ? loc : 0xFFFFFFFFFFFFFFFFULL;
-		g_dr_super[k].directory_table_start = ms;
-		g_dr_super[k].id_table_start = used;
-		g_dr_super[k].export_table_start = 0xFFFFFFFFFFFFFFFFULL;
-		g_dr_super[k].xattr_id_table_start = 0xFFFFFFFFFFFFFFFFULL;
-		if (!cnt) g_dr_super[k].flags |= SQFS_FLAG_NO_FRAGMENTS;
+		set_super(&g_dr_super[k], bs, ms, loc, cnt, used);
 		g_dr[k] = mk_reader((int)k, &st);
 		printf("st=%d\n", st);
 		return;
 	}
 	if (!g_dr[k]) { puts("bad-op"); return; }
+	if (strcmp(w[2], "reload") == 0 && nw == 7) {
+		sqfs_u64 ms, loc, cnt, used;
+		if (pu64(w[3], &ms) || pu64(w[4], &loc) || pu64(w[5], &cnt) || pu64(w[6], &used)) { puts("bad-op"); return; }
+		set_super(&g_dr_super[k], g_dr_bs[k], ms, loc, cnt, used);
+		printf("st=%d\n", sqfs_data_reader_load_fragment_table(g_dr[k], &g_dr_super[k]));
+		return;
+	}
+	if ((strcmp(w[2], "block") == 0 && nw == 9) || (strcmp(w[2], "frag") == 0 && nw == 8) || (strcmp(w[2], "cat") == 0 && nw == 9)) {
+		sqfs_u64 arg = 0;
+		sqfs_inode_generic_t *ino = mk_inode(w + 3);
+		sqfs_data_reader_t *fresh;
+		int st, which = w[2][0];
+		if (!ino || (nw == 9 && pu64(w[8], &arg))) { free(ino); puts("bad-op"); return; }
+		if (which == 'b') do_block(g_dr[k], ino, arg); else if (which == 'f') do_frag(g_dr[k], ino); else do_cat(g_dr[k], ino, arg);
+		printf(" || ");
+		fresh = mk_reader((int)k, &st);
+		if (which == 'b') do_block(fresh, ino, arg); else if (which == 'f') do_frag(fresh, ino); else do_cat(fresh, ino, arg);
+		sqfs_drop(fresh);
+		putchar('\n');
+		free(ino);
+		return;
+	}
 	if (strcmp(w[2], "read") == 0 && nw == 10) {
 		sqfs_u64 off, size;
 		sqfs_inode_generic_t *ino = mk_inode(w + 3);
@@ -126,5 +238,6 @@ void op_data(char **w, int nw)
 
 void h_c10_data_reset(void)
 {
+	for (int i = 0; i < NST; ++i) { if (g_st[i]) sqfs_drop(g_st[i]); g_st[i] = NULL; }
 	for (int i = 0; i < NDR; ++i) { if (g_dr[i]) sqfs_drop(g_dr[i]); g_dr[i] = NULL; }
 }
